@@ -153,6 +153,24 @@ let () =
            let st r = let s = snd (fst r) in (s.s_cnt, s.s_sum) in
            Printf.printf "A %s %s | B %s %s | S step=%d %s\n"
              (steps (snd a)) (grids (st a)) (steps (snd b)) (grids (st b)) (int_of_z (fst f)) (grids (snd f))
+         | "META" ->
+           let nd = ni () in
+           let vg = List.init nd (fun _ ->
+               let sigma = nf () in let width = nf () in let lower = nf () in let upper = nf () in let nx = ni () in
+               let expand = nb () in
+               ({ v_kind = KScalar; v_periodic0 = false; v_period0 = 0.0; v_sigma = sigma; v_width0 = width;
+                  v_gperiodic = false; v_expand = expand; v_hard_lo = false; v_hard_up = false },
+                { b_lower = lower; b_upper = upper; b_nx = z_of_int nx })) in
+           let weight = nf () in let hw = nf () in let freq = nz () in let gfreq = nz () in
+           let ug = nb () in let keep = nb () in let wt = nb () in let bt = nf () in let kb = nf () in
+           let it0 = nz () in let t = ni () in let k = ni () in
+           let h = List.init t (fun _ -> List.init nd (fun _ -> [nf ()])) in
+           let c = { c_vars0 = List.map fst vg; c_geom0 = List.map snd vg; c_weight = weight; c_hill_width = hw;
+                     c_freq = freq; c_gfreq = gfreq; c_use_grids = ug; c_keep = keep; c_wt = wt;
+                     c_bias_temp = bt; c_kb = kb; c_step_zero = false } in
+           protocol (meta_machine fops) c it0 h k
+             (fun (e, f) -> Printf.sprintf "E=%s F=%s" (hex e) (hexl (List.concat f)))
+             (fun (_, hs) -> Printf.sprintf "NH=%d" (List.length hs))
          | _ -> Printf.printf "?\n")
       end
     done
